@@ -83,6 +83,9 @@ def small_bodies() -> list[dict[str, Any]]:
     ann_sets = [None, {}, {'user': 'u'}, {'user': 'u', KUBECTL: '{}'},
                 {'other.example.com/kopf-managed': 'yes', 'other.example.com/h': '{"retries":1}'},
                 {'sub.kopf.zalando.org/h': 'x', 'user/with-slash': 'w'},
+                # ordinary annotations of look-alike domains: the key merely BEGINS with the characters of a managed prefix
+                {'kopf.zalando.org.uk/x': 'v', 'kopf.zalando.orgx': 'n', 'my-op.example.community/b': '2', 'my-op.example.com.x/a': '1'},
+                {'other.example.com/kopf-managed': 'yes', 'other.example.com.internal/y': 'w', 'other.example.community/z': 'k'},
                 {'kopf.zalando.org/touch-dummy': 't', 'kopf.zalando.org/fn': '{"retries":1}', 'my-op.example.com/kopf-managed': 'yes',
                  'my-op.example.com/fn': '{}'}]
     statuses = [None, {}, {'other': 1}, {'kopf': {'progress': {'fn': {'retries': 1}}, 'dummy': 'd'}, 'myop': {'progress': {'fn': {}}, 'last': '{}'}}]
